@@ -33,8 +33,24 @@ def _resolve_named_consts(doc, consts):
         elif isinstance(o, list):
             for v in o:
                 visit(v)
+    import re as _re
+    tys = {p: (consts[p].get('ty') or '') for p in vals}
+    by_name = {}
+    for p in vals:
+        by_name.setdefault(p.split('::')[-1], []).append(p)
+    uniq = {n: ps[0] for n, ps in by_name.items() if len(ps) == 1}
+    pat = _re.compile(r'const (?:[\w<>{}#\' ]+::)*(%s)\b' % '|'.join(_re.escape(n) for n in uniq)) if uniq else None
+
+    def lit(m):
+        p = uniq[m.group(1)]
+        ty = tys[p]
+        if ty == 'bool':
+            return 'const %s' % ('true' if vals[p] else 'false')
+        return 'const %s_%s' % (vals[p], ty)
     for b in doc.get('bodies', []):
         visit(b.get('blocks'))
+        if pat is not None and b.get('promoted'):
+            b['promoted'] = [[pat.sub(lit, ln) for ln in pr] for pr in b['promoted']]
 
 
 class Crate:
